@@ -1467,3 +1467,104 @@ func isDocField(v ssa.Value, pick func(*v2Roles) string) bool {
 	}
 	return false
 }
+
+// rangeLoop is a `for ... range X` loop: its header and X.
+type rangeLoop struct {
+	header *ssa.BasicBlock
+	over   ssa.Value
+}
+
+// rangeLoopsOf lists the range loops of fn over slices (index phi from -1 compared with len(X)) and over maps / strings
+// (next of range X).
+func rangeLoopsOf(fn *ssa.Function) []rangeLoop {
+	var out []rangeLoop
+	for _, h := range fn.Blocks {
+		isHeader := false
+		for _, pr := range h.Preds {
+			if h.Dominates(pr) {
+				isHeader = true
+			}
+		}
+		if !isHeader || len(h.Instrs) == 0 {
+			continue
+		}
+		ifi, ok := h.Instrs[len(h.Instrs)-1].(*ssa.If)
+		if !ok {
+			continue
+		}
+		switch cond := ifi.Cond.(type) {
+		case *ssa.BinOp:
+			if cond.Op != token.LSS {
+				continue
+			}
+			inc, ok := cond.X.(*ssa.BinOp)
+			if !ok || inc.Op != token.ADD || inc.Block() != h {
+				continue
+			}
+			phi, ok := inc.X.(*ssa.Phi)
+			if !ok || phi.Block() != h {
+				continue
+			}
+			fromMinusOne := false
+			for _, e := range phi.Edges {
+				if k, isK := core.ConstInt(e); isK && k == -1 {
+					fromMinusOne = true
+				}
+			}
+			if !fromMinusOne {
+				continue
+			}
+			if call, ok := cond.Y.(*ssa.Call); ok {
+				if bi, ok := call.Call.Value.(*ssa.Builtin); ok && bi.Name() == "len" {
+					out = append(out, rangeLoop{h, call.Call.Args[0]})
+				}
+			}
+		case *ssa.Extract:
+			if nx, ok := cond.Tuple.(*ssa.Next); ok && cond.Index == 0 {
+				if rg, ok := nx.Iter.(*ssa.Range); ok {
+					out = append(out, rangeLoop{h, rg.X})
+				}
+			}
+		}
+	}
+	return out
+}
+
+// leavesEarly: the loop with this header can be left from its body (break, return, goto) - not only from the header
+// when the ranged collection is exhausted. Returns the position of such an exit.
+func leavesEarly(header *ssa.BasicBlock) (bool, token.Pos) {
+	loopBlocks := map[*ssa.BasicBlock]bool{header: true}
+	var lw []*ssa.BasicBlock
+	for _, pr := range header.Preds {
+		if header.Dominates(pr) {
+			lw = append(lw, pr)
+		}
+	}
+	for len(lw) > 0 {
+		b := lw[len(lw)-1]
+		lw = lw[:len(lw)-1]
+		if loopBlocks[b] {
+			continue
+		}
+		loopBlocks[b] = true
+		lw = append(lw, b.Preds...)
+	}
+	for _, b := range header.Parent().Blocks {
+		if !loopBlocks[b] || b == header {
+			continue
+		}
+		last := b.Instrs[len(b.Instrs)-1]
+		for _, sc := range b.Succs {
+			if !loopBlocks[sc] {
+				return true, last.Pos()
+			}
+		}
+		if _, isRet := last.(*ssa.Return); isRet {
+			return true, last.Pos()
+		}
+		if _, isPanic := last.(*ssa.Panic); isPanic {
+			continue
+		}
+	}
+	return false, token.NoPos
+}
